@@ -161,6 +161,9 @@ class LDMService:
         current_time = TimestampIts.initialize_with_utc_timestamp_seconds()
         notify_time = subscription.subscription_request.notify_time
         with self._lock:
+            if subscription not in self.subscriptions:
+                # unsubscribed (or its consumer deregistered) while this attendance was running
+                return
             last_checked = self.last_checked_subscriptions_time.get(subscription)
             if last_checked is None:
                 self.last_checked_subscriptions_time[subscription] = current_time
